@@ -855,6 +855,9 @@ func runProc(bin, work, prop, tier string, sd int, u unitSpec, shard, shards int
 	}
 	if timeout <= 0 {
 		timeout = 1800
+		if tier == "thorough" {
+			timeout = 3600
+		}
 	}
 	args := []string{"-test.run", "^" + u.Test + "$", "-test.count=1", "-test.timeout=0"}
 	if u.Rapid {
